@@ -1,0 +1,8 @@
+//go:build !verif
+
+// Package verifhook provides named hook points for the verification harness.
+// Without the build tag "verif" every hook is a no-op.
+package verifhook
+
+// Hit marks a named point in the code. It does nothing unless built with the tag "verif"
+func Hit(name string) {}
